@@ -545,6 +545,39 @@ func c08(r *Report) {
 	})
 
 	r.Guard("C08.R4", "every part of a relayed frame is stored in the queued frame and written by its send method", func() {
+		// a queued HEADERS / PUSH_PROMISE frame is written when its turn comes: no successful return
+		// of its send method without a framer write
+		for _, tn := range []string{"queuedHeaderFrame", "queuedPushPromiseFrame", "queuedDataFrame", "queuedRSTStreamFrame", "queuedPriorityFrame"} {
+			sm := w.method(w.Named("h2", tn), "send")
+			if sm == nil || sm.Blocks == nil {
+				continue
+			}
+			r.Touch(sm)
+			g := G(sm)
+			isWrite := func(i ssa.Instruction) bool {
+				c, ok := i.(ssa.CallInstruction)
+				if !ok {
+					return false
+				}
+				sc := c.Common().StaticCallee()
+				return sc != nil && strings.HasPrefix(sc.Name(), "Write") && sc.Signature.Recv() != nil && strings.HasSuffix(sc.Signature.Recv().Type().String(), "http2.Framer")
+			}
+			p := g.PathTo([]ssa.Instruction{g.Entry()}, true, isWrite, func(i ssa.Instruction) bool {
+				ret, isR := i.(*ssa.Return)
+				if !isR || len(ret.Results) == 0 {
+					return false
+				}
+				for _, v := range retVals(ret, 0) {
+					for _, l := range resolveAll(v) {
+						if isNilConst(l) {
+							return true
+						}
+					}
+				}
+				return false
+			})
+			r.Decide("path", "(*M/h2."+tn+").send writes the frame on every successful path", p == nil, "a Framer.Write* call lies on every path to a nil return", "send can report success without writing anything (a frame with no chunks): the frame, and an END_STREAM on it, silently disappears", sm.Pos())
+		}
 		writers := map[string]string{
 			"queuedDataFrame": "WriteData", "queuedHeaderFrame": "WriteHeaders", "queuedPushPromiseFrame": "WritePushPromise",
 			"queuedPriorityFrame": "WritePriority", "queuedRSTStreamFrame": "WriteRSTStream",
